@@ -110,10 +110,17 @@ def _rank(ctx, priv):
     entry the rank must be the one the two tests call for."""
     nz = N.Normaliser()
     graph = ctx.cfg(priv)
-    cap = N.cmp_atom(ast.Name(id='util_after'), '<=',
+    # the locals by their position in the entry the generator yields:
+    # (rank, utilisation before, utilisation after, ...)
+    etup = _entry_tuple(ctx, priv, quiet=True)
+    rvar, ubef, uaft = 'rank', 'util_before', 'util_after'
+    if etup is not None and len(etup.elts) >= 3 and all(
+            isinstance(e, ast.Name) for e in etup.elts[:3]):
+        rvar, ubef, uaft = [e.id for e in etup.elts[:3]]
+    cap = N.cmp_atom(ast.Name(id=uaft), '<=',
                      ast.parse('self.max_utilization - 1',
                                mode='eval').body)
-    boost = N.cmp_atom(ast.Name(id='util_before'), '<',
+    boost = N.cmp_atom(ast.Name(id=ubef), '<',
                        ast.Constant(value=0))
     lin_base = N.linear(ast.parse('self.rank', mode='eval').body)
     lin_boost = N.linear(ast.parse('self.rank - self.rank_adjustment',
@@ -134,7 +141,7 @@ def _rank(ctx, priv):
         if lin == lin_boost:
             return 'boosted'
         if cur == 'base' and lin == N.linear(ast.parse(
-                'rank - self.rank_adjustment', mode='eval').body):
+                '%s - self.rank_adjustment' % rvar, mode='eval').body):
             return 'boosted'
         return 'other'
 
@@ -163,14 +170,14 @@ def _rank(ctx, priv):
                 for tgt in stmt.targets:
                     names = [n.id for n in ast.walk(tgt)
                              if isinstance(n, ast.Name)]
-                    if 'util_after' in names:
+                    if uaft in names:
                         capv = '?'
-                    if 'util_before' in names:
+                    if ubef in names:
                         boostv = '?'
-                    if N.txt(tgt) == 'rank':
+                    if N.txt(tgt) == rvar:
                         rank = classify(stmt.value, rank)
             elif isinstance(stmt, ast.AugAssign) and \
-                    N.txt(stmt.target) == 'rank':
+                    N.txt(stmt.target) == rvar:
                 if isinstance(stmt.op, ast.Sub) and rank == 'base' and \
                         N.txt(stmt.value) == 'self.rank_adjustment':
                     rank = 'boosted'
@@ -181,10 +188,10 @@ def _rank(ctx, priv):
     builds = [n for n in graph.nodes if n.kind == 'stmt' and
               isinstance(n.ast, ast.Assign) and
               isinstance(n.ast.value, ast.Tuple) and n.ast.value.elts and
-              N.txt(n.ast.value.elts[0]) == 'rank']
+              N.txt(n.ast.value.elts[0]) == rvar]
     builds += [n for n in graph.nodes if n.kind == 'stmt' and any(
         isinstance(s, ast.Yield) and isinstance(s.value, ast.Tuple) and
-        s.value.elts and N.txt(s.value.elts[0]) == 'rank'
+        s.value.elts and N.txt(s.value.elts[0]) == rvar
         for s in ast.walk(n.ast))]
     ctx.require(builds, 'construction of the queue entry (rank first) in '
                         '%s' % priv.qualname)
@@ -233,13 +240,17 @@ def _sentinel(ctx, priv, merged):
                 ctx.ob('C06.3', func, node, ok,
                        '%s forced to the maximum exactly under priority == 0'
                        % tgt)
-        ctx.ob('C06.3', func, None, found == {'util_before', 'util_after'},
-               'priority-0 sentinel covers util_before and util_after '
-               '(found %s)' % sorted(found),
+        etup = _entry_tuple(ctx, func, quiet=True)
+        want = {'util_before', 'util_after'}
+        if etup is not None and len(etup.elts) >= 3:
+            want = {N.txt(etup.elts[1]), N.txt(etup.elts[2])}
+        ctx.ob('C06.3', func, None, found == want,
+               'priority-0 sentinel covers both utilisation positions of '
+               'the entry (found %s)' % sorted(found),
                construct='sentinel fields in %s' % func.name)
 
 
-def _entry_tuple(ctx, func):
+def _entry_tuple(ctx, func, quiet=False):
     """The tuple display a generator yields (directly or through one
     local)."""
     yields = [s for s in K.walk_no_nested(func.node)
@@ -253,11 +264,12 @@ def _entry_tuple(ctx, func):
                     N.txt(s.targets[0]) == val.id]
             val = defs[0] if len(defs) == 1 else None
         tups.append(val if isinstance(val, ast.Tuple) else None)
-    ctx.ob('C06.4', func, yields[0] if yields else None,
-           bool(tups) and all(t is not None for t in tups) and
-           len(set(N.txt(t) for t in tups)) == 1,
-           'the generator yields one entry tuple',
-           construct='yield entry')
+    if not quiet:
+        ctx.ob('C06.4', func, yields[0] if yields else None,
+               bool(tups) and all(t is not None for t in tups) and
+               len(set(N.txt(t) for t in tups)) == 1,
+               'the generator yields one entry tuple',
+               construct='yield entry')
     return tups[0] if tups and tups[0] is not None else None
 
 
